@@ -521,7 +521,7 @@ func planC05(tier string) *Plan {
 		p.Jobs = append(p.Jobs, j)
 	}
 	p.MustCover = []string{"C05.O2.decided", "event.processblock", "step.end", "C05.reset.end", "C05.O5.cached", "C05.reset.viewchanged"}
-	p.MustAssert = []string{"C05.O2.unchanged", "C05.O1.flag", "C05.O3.height", "C05.O3.validators", "C05.O3.subscription", "C05.O4.cache", "C05.O5.commit", "INV"}
+	p.MustAssert = []string{"C05.O2.unchanged", "C05.O1.flag", "C05.O3.height", "C05.O3.validators", "C05.O3.subscription", "C05.O4.cache", "C05.O5.commit", "C05.O5.futurecached", "INV"}
 	p.Explanation = "Two harnesses on the real code. (1) One step from an arbitrary DECIDED Inv state (blockProcessed) for every API: state fingerprint unchanged, no ProcessBlock/ProcessPreBlock, no timer call, no broadcast except a RecoveryMessage answering a RecoveryRequest; from undecided states at most one successful ProcessBlock per call and the flag is set with it. (2) Reset/Start from an arbitrary Inv state with a symbolic future-message cache, the ledger height jumping by any amount, the validator count and the own index changing: afterwards height = ledger+1, previous hash, validator list, own index, block times are the callbacks' values, view 0 unless M cached change views were replayed, tables sized to the new count holding only payloads of the entered height, flags cleared unless a block was processed in this very call, no cache inbox at or below the entered height (except re-cached higher-view payloads of that height), an admissible cached Commit/ChangeView of the entered height sits in its table."
 	p.Bounds["reset"] = "validator counts (old,new) in {(4,4),(4,7),(7,4),(1,4),(4,1)} (quick: first two), cache <= 2 payloads"
 	return p
@@ -896,8 +896,19 @@ func planC08(tier string) *Plan {
 		add(2, my, 0, 0, 0, 0, 1)
 		add(1, 0, 0, 0, 0, 0, 0)
 	}
-	p.MustCover = []string{"C08.round.delivered", "event.processblock", "event.processpreblock"}
-	p.MustAssert = []string{"C08.decided", "C08.view0", "C08.nocomplaints", "C08.own.messages", "C08.block", "C08.early.cached", "C08.entered"}
+	// entering the next height: what arrives between the decision and Reset must be kept (one
+	// inductive step from every decided / undecided Inv state, N=4)
+	for _, dec := range []int{1, 2} {
+		for _, amev := range []int{0, 1} {
+			for _, api := range []int{apiPrepareRequest, apiPrepareResponse, apiCommit, apiPreCommit, apiChangeView} {
+				j := stepJob(stepCfg{n: 4, my: 1, prim: 0, amev: amev, req: 1, api: api, extra: map[string]int{"decided": dec}}, []string{"C08"})
+				j.BudgetS = 600
+				p.Jobs = append(p.Jobs, j)
+			}
+		}
+	}
+	p.MustCover = []string{"C08.round.delivered", "event.processblock", "event.processpreblock", "C05.O5.future"}
+	p.MustAssert = []string{"C08.decided", "C08.view0", "C08.nocomplaints", "C08.own.messages", "C08.block", "C08.early.cached", "C08.entered", "C05.O5.futurecached"}
 	p.Assumptions = append([]string{
 		"fault-free round: the N-1 peers are played by the harness and send exactly the messages honest validators send for the proposal (valid signatures/pre-commit data, responses naming the proposal); all application callbacks succeed; every proposed transaction is available locally",
 		"synchronous: no timeout is delivered during the round",
@@ -925,7 +936,7 @@ func planC17(tier string) *Plan {
 			Params: map[string]int{"selbound": b}, Redirect: simRedirect})
 	}
 	p.MustCover = []string{"C17.event", "C17.block", "C17.loop.exit"}
-	p.MustAssert = []string{"C17.reinitialised", "C17.height", "C17.ledger"}
+	p.MustAssert = []string{"C17.reinitialised", "C17.timerchannel", "C17.height", "C17.ledger"}
 	p.Assumptions = append([]string{
 		"the library instance is replaced by its CONTRACT, each clause of which is solver-checked on the real library code by the step checks: Start/Reset put the instance at CurrentHeight()+1 and undecided (C05.O3); an undecided instance may hand exactly one block, with index = its height, to ProcessBlock during an OnReceive/OnTimeout call and is decided afterwards (C02.O3, C05.O1); a decided instance ignores every timeout and payload until Reset (C05.O2)",
 		"the environment decides which select case is ready in each iteration (timer, message, cancellation): a fresh choice; whether an event completes the round is a fresh boolean",
